@@ -125,6 +125,52 @@ def catalogue(tier: str = "quick") -> List[Entry]:
         Entry("NamedTuple", _NT, "namedtuple", "conv"), Entry("NamedTuple with defaults", _NTD, "namedtuple-defaults", "conv"),
         Entry("TypedDict", _TD, "typeddict", "conv"), Entry("TypedDict total=False", _TDP, "typeddict", "conv"),
     ]
+    if tier == "thorough":
+        out += _thorough_extension(out)
+    return out
+
+
+def _thorough_extension(base: List["Entry"]) -> List["Entry"]:
+    """Every container family over richer element types (two levels deep): Optional / nested container / enum /
+    NamedTuple / TypedDict / scalar-with-conversion elements, and Optional around every container family."""
+    D = datetime
+    O = typing.Optional
+    elems = [
+        (O[D.date], "Optional[date]", "optconv"), (list[D.date], "list[date]", "nested"), (dict[str, D.date], "dict[str, date]", "nested"),
+        (tuple[D.date, ...], "tuple[date, ...]", "nested"), (_E, "Enum", "conv"), (uuid.UUID, "UUID", "conv"), (decimal.Decimal, "Decimal", "conv"),
+        (D.datetime, "datetime", "conv"), (D.timedelta, "timedelta", "conv"), (bytes, "bytes", "conv"), (pathlib.PurePath, "PurePath", "conv"),
+        (_NT, "NamedTuple", "nested"), (_TD, "TypedDict", "nested"), (O[list[O[D.date]]], "Optional[list[Optional[date]]]", "nested"),
+        (frozenset[D.date], "frozenset[date]", "nested"), (str, "str", "trivial"), (float, "float", "trivial"), (bool, "bool", "trivial"),
+    ]
+    fams = [
+        ("list", lambda e: list[e]), ("deque", lambda e: collections.deque[e]), ("Sequence", lambda e: typing.Sequence[e]),
+        ("vartuple", lambda e: tuple[e, ...]), ("fixtuple", lambda e: tuple[e, int]), ("dict", lambda e: dict[str, e]), ("Mapping", lambda e: typing.Mapping[str, e]),
+        ("OrderedDict", lambda e: collections.OrderedDict[str, e]), ("defaultdict", lambda e: collections.defaultdict[str, e]),
+        ("ChainMap", lambda e: collections.ChainMap[str, e]), ("MappingProxyType", lambda e: types.MappingProxyType[str, e]), ("optional", lambda e: O[e]),
+    ]
+    hashable = {"Optional[date]", "Enum", "UUID", "Decimal", "datetime", "timedelta", "bytes", "PurePath", "str", "float", "bool", "tuple[date, ...]", "frozenset[date]", "NamedTuple"}
+    fam_of = {"list": "list", "deque": "deque", "Sequence": "sequence", "vartuple": "vartuple", "fixtuple": "fixtuple", "dict": "dict", "Mapping": "mapping",
+              "OrderedDict": "ordereddict", "defaultdict": "defaultdict", "ChainMap": "chainmap", "MappingProxyType": "mappingproxy", "optional": "optional"}
+    have = {e.name for e in base}
+    out: List[Entry] = []
+    for fname, mk in fams:
+        for et, en, kind in elems:
+            if fname == "optional" and en.startswith("Optional"):
+                continue
+            name = f"{fname}<{en}>"
+            if name in have:
+                continue
+            try:
+                t = mk(et)
+            except TypeError:
+                continue
+            out.append(Entry(name, t, fam_of[fname], kind))
+    for et, en, kind in elems:
+        if en in hashable:
+            out.append(Entry(f"set<{en}>", set[et], "set", kind))
+            out.append(Entry(f"frozenset<{en}>", frozenset[et], "frozenset", kind))
+            if en not in ("float", "bool"):
+                out.append(Entry(f"dict<{en}, int>", dict[et, int], "dict", "convkey"))
     return out
 
 
@@ -245,7 +291,7 @@ class Outcome:
 
 
 class Dispatcher:
-    def __init__(self, repo: Repo, kind: str, no_copy: Tuple = (), nailed: bool = True, extra_assume=(), max_depth: int = 4):
+    def __init__(self, repo: Repo, kind: str, no_copy: Tuple = (), nailed: bool = True, extra_assume=(), max_depth: int = 7):
         self.repo = repo
         self.kind = kind  # 'PACK' | 'UNPACK'
         self.module = M_PACK if kind == "PACK" else M_UNPACK
@@ -330,6 +376,10 @@ class Dispatcher:
             t = args[0].obj
             txt = t.__qualname__ if t.__module__ == "builtins" else f"{t.__module__}.{t.__qualname__}"
             return [(Sym(txt, {"TYPEREF_RAW"}, ("typeref", t)), p)]
+        if args and isinstance(args[0], Py) and isinstance(getattr(args[0].obj, "__origin__", None), type) and not kwargs.get("resolved_type_params"):
+            # a parametrised generic class (list[date], typing.Dict[str, int]): the rendered alias, called, constructs its origin
+            t = args[0].obj.__origin__
+            return [(Sym(f"type_name({args[0].name})", {"TYPEREF_RAW"}, ("typeref", t)), p)]
         return None
 
     @staticmethod
@@ -463,21 +513,22 @@ def canonise(o: Outcome) -> str:
             holes[m] = tk
         else:
             nm = show(h.val)
-            if "__pack_typed_dict_" in nm or "__unpack_typed_dict_" in nm:
+            if nm.startswith("type_name("):
+                holes[m] = "FACTORY_OPAQUE"  # a type reference that is not a class (Optional / Union value type): C17 R17.2 decides it
+            elif "__pack_typed_dict_" in nm or "__unpack_typed_dict_" in nm:
                 holes[m] = "HELPER_typeddict"
             elif "__unpack_named_tuple_" in nm:
                 holes[m] = "HELPER_namedtuple"
     # helper call: `<attrs>.__unpack_typed_dict_<cls>_<field>__<hex>(X)` renders as  _h0_.__unpack_typed_dict__h1___h2____h3_(X)
     import re as _re
 
-    m = _re.fullmatch(r"_h\d+_\.__(un)?pack_(typed_dict|named_tuple)_.*\((.*)\)", src)
-    if m:
-        kind = "typeddict" if m.group(2) == "typed_dict" else "namedtuple"
-        return f"<{kind} helper>"
+    # helper calls (`<attrs>.__unpack_typed_dict_<cls>_<field>__<hex>(arg)`): keep the argument, abstract the helper name
+    src = _re.sub(r"_h\d+_\.__(?:un)?pack_typed_dict_\w*?\(", "HELPER_TYPEDDICT_CALL(", src)
+    src = _re.sub(r"_h\d+_\.__unpack_named_tuple_\w*?\(", "HELPER_NAMEDTUPLE_CALL(", src)
     try:
         tree = ast.parse(src, mode="eval")
     except SyntaxError:
         return "<unparseable> " + r.describe(src)
     reg = oracle.registered_objects(o.path)
     tree = oracle.Canon(reg, holes).visit(tree)
-    return ast.unparse(tree)
+    return ast.unparse(tree).replace("HELPER_TYPEDDICT_CALL", "<typeddict helper>").replace("HELPER_NAMEDTUPLE_CALL", "<namedtuple helper>").replace("FACTORY_OPAQUE", "<factory>")
